@@ -20,6 +20,8 @@ type omap struct {
 	vals    []value
 	idx     map[value]int // concrete basic keys only -> position
 	nsym    int           // number of symbolic keys stored
+	lazy    *lazyInfo     // lazily initialised JSON object (see jsonstub.go)
+	absent  map[string]bool
 }
 
 func makeMap(kt types.Type, reserve int64) value {
@@ -92,6 +94,21 @@ func keyEquals(t types.Type, a, b value) bool {
 func (m *omap) lookup(k value) (value, bool) {
 	if i := m.find(k); i >= 0 {
 		return m.vals[i], true
+	}
+	if m != nil && m.lazy != nil {
+		if ks, ok := k.(string); ok {
+			if m.absent[ks] {
+				return nil, false
+			}
+			v, present := E.lazyDecide(m, ks)
+			if !present {
+				if m.absent == nil {
+					m.absent = map[string]bool{}
+				}
+				m.absent[ks] = true
+			}
+			return v, present
+		}
 	}
 	return nil, false
 }
